@@ -283,12 +283,21 @@ def materialise(world, root):
     importlib.invalidate_caches()
 
 
+_PERSISTENT = {}
+
+
 def load_real(world, root, rid, fresh_loader=True):
-    """Load resource rid as a schema on the real code.  -> (schema or None, outcome dict)"""
+    """Load resource rid as a schema on the real code.  -> (schema or None, outcome dict)
+    Documents without a URL go through one SchemaLoader object per process: a loader that has read other
+    documents before must judge this one on its own (documents with a URL are cached by URL, by design)."""
     import ZConfig
+    import ZConfig.loader
     try:
         if rid in world.files.values():
             sch = ZConfig.loadSchema(os.path.join(root, rid))
+        elif fresh_loader is False or (sum(map(ord, rid)) % 2 == 0):
+            ld = _PERSISTENT.setdefault("loader", ZConfig.loader.SchemaLoader())
+            sch = ld.loadFile(io.StringIO(to_xml(world.docs[rid])))
         else:
             sch = ZConfig.loadSchemaFile(io.StringIO(to_xml(world.docs[rid])))
     except ZConfig.SchemaError as e:
